@@ -116,6 +116,21 @@ class Evaluator:
                     if c is not None:
                         raise NeedAtom(c[0], e)
                 raise
+        if isinstance(e, (ast.Tuple, ast.List, ast.Set)) and all(isinstance(x, ast.Constant) for x in e.elts):
+            return tuple(x.value for x in e.elts)  # literal collection of constants (membership tests)
+        if isinstance(e, ast.Dict) and all(isinstance(k_, ast.Constant) for k_ in e.keys):
+            return _LazyDict(self, e)  # literal lookup table: values are evaluated only when selected
+        if isinstance(e, ast.Subscript) and isinstance(e.value, ast.Dict) and all(isinstance(k_, ast.Constant) for k_ in e.value.keys):
+            return _LazyDict(self, e.value)[self.ev(e.slice)]
+        if isinstance(e, ast.Call) and isinstance(e.func, ast.Attribute) and e.func.attr == "get" and isinstance(e.func.value, ast.Dict) \
+                and all(isinstance(k_, ast.Constant) for k_ in e.func.value.keys) and 1 <= len(e.args) <= 2 and not e.keywords:
+            d_ = _LazyDict(self, e.func.value)
+            key_ = self.ev(e.args[0])
+            if key_ in d_:
+                return d_[key_]
+            return self.ev(e.args[1]) if len(e.args) == 2 else None
+        if isinstance(e, ast.Call) and isinstance(e.func, ast.Name) and e.func.id == "bool" and len(e.args) == 1 and not e.keywords:
+            return bool(self.ev(e.args[0]))
         if isinstance(e, ast.Call) and isinstance(e.func, ast.Name) and e.func.id in ("isinstance", "issubclass") and len(e.args) == 2 \
                 and isinstance(e.args[1], ast.Tuple) and e.args[1].elts and not e.keywords:
             # isinstance(x, (A, B))  ==  isinstance(x, A) or isinstance(x, B)
@@ -126,6 +141,22 @@ class Evaluator:
         if isinstance(e, (ast.Name, ast.Attribute, ast.Call, ast.Subscript)):
             raise NeedAtom(k, e)
         raise Unsupported(f"expression kind {type(e).__name__} in guard: {k}", e)
+
+
+class _LazyDict:
+    """A literal mapping with constant keys inside a guard: membership is decided on the keys, a value is evaluated on selection."""
+
+    def __init__(self, ev: "Evaluator", node: ast.Dict) -> None:
+        self.ev, self.node = ev, node
+        self.keys = [k.value for k in node.keys]  # type: ignore[union-attr]
+
+    def __contains__(self, k: Any) -> bool:
+        return k in self.keys
+
+    def __getitem__(self, k: Any) -> Any:
+        if k not in self.keys:
+            raise Unsupported(f"lookup of {k!r} in a literal table without that key", self.node)
+        return self.ev.ev(self.node.values[len(self.keys) - 1 - self.keys[::-1].index(k)])
 
 
 def _cmp(op: ast.cmpop, a: Any, b: Any) -> bool:
